@@ -154,6 +154,75 @@ predicate `printable` (`coreProgram`, Rooc/Syntax/ProgramToks.lean) that the gen
 theorem parse_format_program (m : PModel) (h : printable m = true) : parseProgram (progToks m) = .ok m :=
   parse_format_printable m h
 
+/-! #### one-sided domain bounds: `x as Real(2)` is printed `x as Real(2, Infinity)`
+
+The printer completes a missing bound by its default, so the formatted text stands for `m.canon` (the same
+declarations with both bounds, Rooc/Syntax/Format.lean); formatting does not distinguish `m` from `m.canon`, and the
+round trip holds up to `canon`.  (A printer that DROPS the given bound — prints `x as Real` — is refuted by the
+driver's correspondence and by the oracle, which compares `canon` of both sides.) -/
+
+theorem canon_type_text (t : PVarType) : t.canon.text = t.text := by
+  cases t with
+  | boolean => rfl
+  | intRange a b => rfl
+  | nonNegReal lo hi =>
+    cases lo <;> cases hi <;>
+      simp [PVarType.canon, PVarType.text, optText, fmtExp, varText, needsEscape, natDigits, digitChar] <;> decide
+  | real lo hi =>
+    cases lo <;> cases hi <;>
+      simp [PVarType.canon, PVarType.text, optText, fmtExp, varText, needsEscape] <;> decide
+
+theorem canon_type_toks (t : PVarType) : typeToks t.canon = typeToks t := by
+  cases t with
+  | boolean => rfl
+  | intRange a b => rfl
+  | nonNegReal lo hi => cases lo <;> cases hi <;> simp [PVarType.canon, typeToks]
+  | real lo hi => cases lo <;> cases hi <;> simp [PVarType.canon, typeToks]
+
+theorem canon_type_idem (t : PVarType) : t.canon.canon = t.canon := by
+  cases t with
+  | boolean => rfl
+  | intRange a b => rfl
+  | nonNegReal lo hi => cases lo <;> cases hi <;> simp [PVarType.canon]
+  | real lo hi => cases lo <;> cases hi <;> simp [PVarType.canon]
+
+/-- **formatting does not see the difference**: `m` and `m.canon` have the same formatted text … -/
+theorem format_canon (m : PModel) : m.canon.text = m.text := by
+  have hd : ∀ d : PDomain, d.canon.text = d.text := by
+    intro d; simp [PDomain.canon, PDomain.text, canon_type_text]
+  simp [PModel.canon, PModel.text, List.map_map, Function.comp_def, hd]
+
+/-- … and the same tokens -/
+theorem progToks_canon (m : PModel) : progToks m.canon = progToks m := by
+  have hd : ∀ d : PDomain, domainToks d.canon = domainToks d := by
+    intro d; simp [PDomain.canon, domainToks, canon_type_toks]
+  have hl : ∀ ds : List PDomain, domainsToks (ds.map PDomain.canon) = domainsToks ds := by
+    intro ds; induction ds with
+    | nil => rfl
+    | cons d ds ih => simp [domainsToks, hd, ih]
+  simp [progToks, PModel.canon, objectiveToks, hl]
+
+/-- **`parse (format p) = canon p`**: a program whose completed form is in the printable fragment — in particular
+every program with one-sided bounds `Real(lo)` / `NonNegativeReal(lo)` over printable expressions — is read back
+from its formatted text as its completed form: the given bound is kept, the missing one is its default -/
+theorem parse_format_program_canon (m : PModel) (h : printable m.canon = true) :
+    parseProgram (progToks m) = .ok m.canon := by
+  rw [← progToks_canon]; exact parse_format_printable m.canon h
+
+/-- non-vacuity: `min x  s.t.  x >= 1  define  x as Real(2)  /  y as NonNegativeReal(3)` -/
+example :
+    let m : PModel := PModel.mk .min (.var "x") [PConstraint.mk none (.var "x") .ge (.int 1) false [] []] []
+      [PDomain.mk [.plain "x"] (.real (some (.int 2)) none) [] [], PDomain.mk [.plain "y"] (.nonNegReal (some (.int 3)) none) [] []]
+    printable m.canon = true ∧ printable m = false
+      ∧ m.text = "min x\ns.t.\n    x >= 1\ndefine\n    x as Real(2, Infinity)\n    y as NonNegativeReal(3, Infinity)\n" := by
+  refine ⟨?_, ?_, ?_⟩
+  · simp [printable, coreProgram, PModel.canon, PDomain.canon, PVarType.canon, coreExp, coreName, coreFor, coreType, plainVar,
+      isPlainRun, isLetter, isDigit, extraLetters, isKeyword, notForHead, constraintToks, domainToks, cnameToks, fmtToks, varListToks,
+      forToks, i64Max, lowerWord, lowerAscii] <;> decide
+  · simp [printable, coreProgram, coreType]
+  · simp [PModel.text, PConstraint.text, PDomain.text, PVarType.text, CName.text, optText, fmtExp, varText, needsEscape, forClause,
+      Cmp.text, ObjKind.text, reindent, joinWith, natDigits, digitChar] <;> decide
+
 /-- the same for the fragment without the lexical conditions on names (`WFpx`) -/
 theorem parse_format_program_wf (m : PModel) (h : WFpx m) : parseProgram (progToks m) = .ok m :=
   parseProgram_fmt m h
